@@ -35,6 +35,8 @@ func (w *World) classifyWt(dir, p, blob string) string {
 		return "rawfile"
 	case s == editedBytes:
 		return "edited"
+	case s == "" && blob != "raw":
+		return "emptied"
 	}
 	for _, o := range []string{"o1", "o2", "o3", "o4"} {
 		if s == w.PointerText(o) {
@@ -115,6 +117,8 @@ func replayFetchCheckout(c *core.Ctx, lfsBin string, b *behaviour, idx int) (*co
 				w.Env.WriteFile(f, []byte(editedBytes), 0o644)
 			case "missing":
 				os.Remove(f)
+			case "emptied":
+				w.Env.WriteFile(f, nil, 0o644)
 			case "otherptr":
 				w.Env.WriteFile(f, []byte(w.PointerText("o4")), 0o644)
 			}
@@ -228,7 +232,7 @@ func replayFetchCheckout(c *core.Ctx, lfsBin string, b *behaviour, idx int) (*co
 				wb, _ := wtBefore[p].(string)
 				wv, _ := wantWt[p].(string)
 				after, _ := os.ReadFile(filepath.Join(cloneB, PathFile(p)))
-				if wb == "edited" || wb == "otherptr" || wb == "rawfile" || wb == "content" {
+				if wb == "edited" || wb == "otherptr" || wb == "emptied" || wb == "rawfile" || wb == "content" {
 					if string(after) != string(before[p]) {
 						return mk("never-clobbers-foreign-content", fmt.Sprintf("%s held %s before `git lfs %s` and was modified (now %s)", p, wb, a, got)), nil
 					}
@@ -362,13 +366,13 @@ func init() {
 		}
 		sort.Slice(keys, func(i, j int) bool { return fnvStr(keys[i], c.Seed) < fnvStr(keys[j], c.Seed) })
 		var bs []*behaviour
-		// classes in which an object sits in the reference store only take up to a quarter of the budget first
+		// classes in which an object sits in the reference store only or a truncated work-tree file take up to a third of the budget first
 		taken := map[string]bool{}
 		for _, k := range keys {
-			if len(bs) >= budget/4 {
+			if len(bs) >= budget/3 {
 				break
 			}
-			if strings.Contains(k, "toreference") {
+			if strings.Contains(k, "toreference") || strings.Contains(k, "pt:emptied") {
 				l := byClass[k]
 				sort.Slice(l, func(i, j int) bool { return l[i].hash < l[j].hash })
 				bs = append(bs, l[0])
